@@ -637,6 +637,17 @@ class Interp:
                     except Unknown as e:
                         vals.append(Opaque("unevaluated argument (%s)" % e))
                 return fn(vals)
+        if gen in ("alloc::boxed::box_assume_init_into_vec_unsafe", "alloc::slice::<impl [T]>::into_vec", "alloc::boxed::box_new"):
+            # the expansion of vec![a, b, ..]: the array literal inside is the content
+            import facts as _F
+            for n_ in _F.walk(e):
+                if isinstance(n_, dict) and n_.get("k") == "Array":
+                    return [self.ev(x, env, depth) for x in n_["elems"]]
+            raise Unknown("vec! expansion without an array literal")
+        if gen.startswith("core::ops::function::Fn"):
+            callee = self.ev(args[0], env, depth)
+            tup = self.ev(args[1], env, depth) if len(args) > 1 else ()
+            return self.call_callable(callee, list(tup) if isinstance(tup, (tuple, list)) else [tup], depth)
         if gen == "core::ops::try_trait::Try::branch":
             v = self.ev(args[0], env, depth)
             if isinstance(v, Enum) and v.variant in ("Ok", "Some"):
@@ -1108,6 +1119,10 @@ class Interp:
         return self.apply(callee, vals, depth + 1)
 
     def call_callable(self, c, vals, depth):
+        if isinstance(c, Ref):
+            c = c.get()
+        if callable(c) and not isinstance(c, (PyClosure, PyFn)):
+            return c(vals)              # a scripted stand-in supplied by a rule (e.g. an element parser)
         if isinstance(c, PyClosure):
             return self.call_closure(c, vals, depth)
         if isinstance(c, PyFn):
